@@ -119,7 +119,7 @@ def opts_strategy(draw):
             o["tail"] = draw(st.integers(1, 2))
         elif k == "sample":
             o["sample"] = draw(st.integers(1, 2))
-            o["random_state"] = draw(st.integers(0, 3))
+            o["random_state"] = draw(st.sampled_from([0, 0, 0, 1, 2, 3]))
         else:
             o[k] = True
     return o
@@ -782,6 +782,98 @@ def eval_polars(case):
 # ------------------------------------------------------------------------ selftest
 
 
+# ------------------------------------------------------------------ sample= / random_state= reach the validation
+
+
+@st.composite
+def strat_sample_state(draw):
+    """Cases of the other families with only sample= and random_state= set and longer frames holding one bad row:
+    whether the call is accepted depends on exactly which rows `D.sample(n, random_state=r)` draws."""
+    import copy
+
+    case = copy.deepcopy(draw(st.one_of(strat_inputs(), strat_outputs(), strat_types())))
+    opts = dict(P.DEFAULT_OPTS)
+    opts["sample"] = draw(st.integers(1, 3))
+    opts["random_state"] = draw(st.sampled_from([0, 0, 1, 7, 42]))
+    case["opts"] = opts
+
+    def longer(spec):
+        if isinstance(spec, dict) and ("frame" in spec or "series" in spec) and not spec.get("carry"):
+            key = "frame" if "frame" in spec else "series"
+            n = draw(st.integers(5, 9))
+            cells_ = [draw(st.sampled_from([1, 2, 3, 5])) for _ in range(n)]
+            if draw(st.integers(0, 3)) > 0:
+                cells_[draw(st.integers(0, n - 1))] = -1
+            return {key: cells_}
+        return spec
+
+    case["call"]["pos"] = [longer(v) for v in case["call"]["pos"]]
+    case["call"]["kw"] = [[k, longer(v)] for k, v in case["call"]["kw"]]
+    body = case["fn"]["body"]
+    for k in ("fresh", "fresh2"):
+        if body.get(k) is not None:
+            body[k] = longer(body[k])
+    return case
+
+
+# ------------------------------------------------------------------ one decorator object, several callables
+
+
+@st.composite
+def strat_shared(draw):
+    """One decorator object applied to two callables of different kinds (function / method / classmethod /
+    staticmethod) that are then called in turn: every call must behave as if its callable had a decorator of its
+    own.  The second callable is the first one with another kind and freshly drawn designated frames."""
+    import copy
+
+    a = draw(st.one_of(strat_inputs(), strat_inputs(), strat_outputs(), strat_types()))
+    b = copy.deepcopy(a)
+    kinds = ["function", "method", "classmethod", "staticmethod"]
+    b["fn"]["kind"] = draw(st.sampled_from([k for k in kinds if k != a["fn"]["kind"]] + [a["fn"]["kind"]]))
+    b["call"]["via"] = draw(st.sampled_from(["instance", "class"]))
+    pos_names = [p["name"] for p in b["fn"]["params"] if p["k"] == "pos"]
+    for inp in b.get("inputs", []):
+        new = draw(frame_spec(inp["schema"]))
+        for kv in b["call"]["kw"]:
+            if kv[0] == inp["name"]:
+                kv[1] = new
+        if inp["name"] in pos_names:
+            i = pos_names.index(inp["name"])
+            if i < len(b["call"]["pos"]):
+                b["call"]["pos"][i] = new
+    order = draw(st.sampled_from([["a", "b", "a"], ["b", "a", "b"], ["a", "b"], ["b", "a"]]))
+    return {"a": a, "b": b, "order": order}
+
+
+def eval_shared(case):
+    ev = Eval()
+    a, b = case["a"], case["b"]
+    ev.labels += ["shared:deco=" + a["deco"], "shared:kinds=" + a["fn"]["kind"] + "+" + b["fn"]["kind"]]
+    has_self = {m["fn"]["kind"] in ("method", "classmethod") for m in (a, b)}
+    if len(has_self) == 2:
+        ev.labels.append("shared:self-and-no-self")
+    for m in (a, b):
+        if known_triggers(m) or _expects_usage_error(m):
+            ev.skipped = "member-has-known-trigger-or-usage-error"
+            return ev
+    ev.nontrivial = a["fn"]["kind"] != b["fn"]["kind"]
+    opts = a["opts"]
+    try:
+        exps = {k: P.reference(case[k], opts) for k in ("a", "b")}
+        for k in ("a", "b"):  # each callable on its own decorator must already agree with the reference
+            if P.compare(exps[k], P.observed(case[k], opts), case[k]):
+                ev.skipped = "member-differs-with-its-own-decorator"
+                return ev
+        shared = P.decorator_for(a, opts)
+        for n, k in enumerate(case["order"]):
+            obs = P.observed(case[k], opts, decorator=shared)
+            for kind, detail in P.compare(exps[k], obs, case[k]):
+                ev.add("shared-decorator:" + kind, {"call": n, "member": k, "order": case["order"], "detail": detail})
+    except P.Skip as s:
+        ev.skipped = str(s)
+    return ev
+
+
 def selftest():
     """Calibration: the comparison must be silent on an undecorated-equivalent run and loud on a planted difference."""
     case = {
@@ -824,6 +916,10 @@ FAMILIES = [
     Family("polars", eval_polars, strategy=strat_polars, n_quick=500, n_thorough=3000, shards_quick=3, shards_thorough=8,
            required_labels=["pl:deco=check_input", "pl:deco=check_output", "pl:deco=check_io", "pl:deco=check_types",
                             "pl:expect=rejected-at-input", "pl:expect=returns", "pl:container=lf"]),
+    Family("sample_state", evaluate, strategy=strat_sample_state, n_quick=300, n_thorough=2000, shards_quick=3,
+           shards_thorough=8, required_labels=["opt:sample", "options-decisive", "deco=check_io", "deco=check_types"]),
+    Family("shared", eval_shared, strategy=strat_shared, n_quick=400, n_thorough=2500, shards_quick=3, shards_thorough=8,
+           required_labels=["shared:self-and-no-self", "shared:deco=check_input", "shared:deco=check_types"]),
     Family("types", evaluate, strategy=strat_types, n_quick=960, n_thorough=4000, shards_quick=5, shards_thorough=16,
            required_labels=["ann=M", "ann=UnionMM2", "ann=OptM", "varargs-extras", "sig:varkw", "kind=method",
                             "expect=rejected-at-input", "expect=rejected-at-output", "options-decisive"]),
